@@ -4,8 +4,8 @@
 
    Abstract state:  psi  -- the dense state tensor over Gaussian integers with legs
                             <<vL, p_0, .., p_{n-1}, vR>> (finite: vL = vR = 1, n = L; segment: outer legs =
-                            the Schmidt states of the environment; infinite: the window of TWO unit cells,
-                            S_0 Gamma_0 S_1 ... Gamma_{2L-1} S_{2L}),
+                            the Schmidt states of the environment; infinite: the window of NWin sites starting at
+                            site 0 -- two unit cells for L <= 2, else L + 1 sites -- S_0 Gamma_0 S_1 ... S_{NWin}),
                     nrm  -- MPS.norm  (the represented vector is nrm * psi).
    Representation:  R = [bc, kinds, cons, form, S, B, qb]  like the implementation:
                     form[i] in {A, B, C, G, Th}  (exponents (nuL, nuR) in halves: Nu2),
@@ -17,7 +17,7 @@
 EXTENDS Dense, TLC
 
 CONSTANTS Seed,       \* pattern seed (VERIF_SEED)
-          Sample,     \* sampling: a generated case is kept iff (caseNo + Seed) % Sample = 0
+          Sample,     \* sampling: a generated case is kept iff Keep(caseNo) (a seeded hash) = 0 mod Sample
           MaxL,       \* largest number of sites (unit cell for infinite bc)
           MaxConv,    \* bound on the number of state-changing steps after construction
           BCs,        \* boundary conditions offered
